@@ -96,6 +96,9 @@ def check_case(c):
              lambda name=name, v=v: u.require_attribute_value(
                  name, pyscalar(v)), (name, v))
     for name, v, exp in c['attr_value_not']:
+        if exp == 'O':
+            continue
+        exp = exp == 'T'
         call('require_attribute_value_not', exp,
              lambda name=name, v=v: u.require_attribute_value_not(
                  name, pyscalar(v)), (name, v))
